@@ -343,7 +343,12 @@ pub fn spi_case(data: &[u8]) -> SpiCase {
             break;
         }
     }
-    SpiCase { n, buf, ops, alt: None }
+    let mut faults = Vec::new();
+    let late = r.left() > 0 && r.bool();
+    while r.left() >= 3 && faults.len() < 2 {
+        faults.push((r.below(8) as u8, r.u16() % 40));
+    }
+    SpiCase { n, buf, ops, alt: None, faults, late }
 }
 
 pub fn par_case(data: &[u8]) -> ParCase {
@@ -387,7 +392,13 @@ pub fn par_case(data: &[u8]) -> ParCase {
             break;
         }
     }
-    ParCase { wide, n, ops }
+    // trailing bytes (if any): pin faults inside the transfers
+    let mut faults = Vec::new();
+    let late = r.left() > 0 && r.bool();
+    while r.left() >= 3 && faults.len() < 2 {
+        faults.push((r.below(6) as u8, r.u16() % 600));
+    }
+    ParCase { wide, n, ops, faults, late }
 }
 
 pub fn model_count() -> usize {
